@@ -3,7 +3,7 @@
    wsclientsWG under wsclientsMu).  Any number of clients and requests, every interleaving. *)
 From Coq Require Import List NArith ZArith Bool.
 Import ListNotations.
-Require Import V.C44.Model V.C44.Accept V.C44.Proofs V.C45.Check V.C45.Proofs V.C45.History.
+Require Import V.C44.Model V.C44.Accept V.C44.Proofs V.C44.Shape V.C45.Check V.C45.Proofs V.C45.History.
 Open Scope N_scope.
 
 (* No client is admitted once shutdown has begun: in no run does an Admit (wsclientsWG.Add(1) in
@@ -71,6 +71,13 @@ Theorem C45_accepted_history_safe :
     no_101_after_return_b h = true /\ no_503_before_shutdown_b h = true.
 Proof. exact accepted_history_shutdown_safe. Qed.
 
+(* The shape of the current handleWatch/close (regenerated into coq/Gen/WatchShape.v on every run) is the
+   one the model transcribes: closing test and wsclientsWG.Add(1) in one wsclientsMu critical section and
+   before the upgrade, Done on a failed upgrade and as the handler's last deferred call, closing set under
+   the same mutex, close ends with wsclientsWG.Wait(). *)
+Theorem C45_code_shape_as_modelled : shape_c45.
+Proof. exact watch_shape_c45. Qed.
+
 (* non-vacuity: a shutdown racing with two upgrades — one admitted before closing, one rejected — and an
    established client; close returns after both handlers are gone *)
 Definition example_shutdown : list label :=
@@ -114,3 +121,4 @@ Print Assumptions C45_model_histories_no_admission_after_return.
 Print Assumptions C45_model_histories_no_handlers_at_return.
 Print Assumptions C45_model_histories_no_rejection_before_shutdown.
 Print Assumptions C45_accepted_history_safe.
+Print Assumptions C45_code_shape_as_modelled.
